@@ -231,6 +231,18 @@ def _replace(fn, name: str, st: ast.Assign) -> None:
                 return
 
 
+class _AugAssign(ast.NodeTransformer):
+    """N5: `x = x + k` / `x = x - k` with a numeric constant k is `x += k` / `x -= k` (same for every immutable x)."""
+
+    def visit_Assign(self, node: ast.Assign):
+        if len(node.targets) == 1 and isinstance(node.targets[0], ast.Name) and isinstance(node.value, ast.BinOp) and \
+                isinstance(node.value.op, (ast.Add, ast.Sub)) and isinstance(node.value.left, ast.Name) and \
+                node.value.left.id == node.targets[0].id and isinstance(node.value.right, ast.Constant) and \
+                isinstance(node.value.right.value, (int, float)) and not isinstance(node.value.right.value, bool):
+            return ast.copy_location(ast.AugAssign(target=node.targets[0], op=node.value.op, value=node.value.right), node)
+        return node
+
+
 # ----------------------------------------------------------------------------------------------------------------- driver
 def normalise(mod: ast.Module, newtypes: set[str], fields: dict) -> ast.Module:
     if newtypes:
@@ -245,6 +257,7 @@ def normalise(mod: ast.Module, newtypes: set[str], fields: dict) -> ast.Module:
     for n in ast.walk(mod):
         if isinstance(n, (ast.FunctionDef, ast.AsyncFunctionDef)):
             _propagate_paths(n)
+    mod = _AugAssign().visit(mod)
     ast.fix_missing_locations(mod)
     return mod
 
@@ -259,6 +272,8 @@ def _access_path(e: ast.expr) -> bool:
         return x is None or isinstance(x, ast.Constant) or _access_path(x) or isinstance(x, ast.Name) or \
             (isinstance(x, ast.UnaryOp) and isinstance(x.op, ast.USub) and isinstance(x.operand, ast.Constant))
     steps = 0
+    if isinstance(e, ast.Call) and isinstance(e.func, ast.Name) and e.func.id == "len" and len(e.args) == 1 and not e.keywords:
+        return _access_path(e.args[0]) or isinstance(e.args[0], ast.Name)
     while True:
         if isinstance(e, ast.Attribute):
             e = e.value
